@@ -24,6 +24,12 @@ type Cycle struct {
 	// lines are triggered while the shell is silent (ascending, each < 1900):
 	// only shell output may keep the mute going.
 	StatusLateMS []int `json:"status_late_ms,omitempty"`
+	// DenseFlood: after the muted burst, this many chunks of shell output are
+	// sent back to back (no pauses) while DenseStatus status lines are
+	// triggered: a status line queued right behind suppressed output must
+	// still be shown.
+	DenseFlood  int `json:"dense_flood,omitempty"`
+	DenseStatus int `json:"dense_status,omitempty"`
 }
 
 // C19Case is a schedule of 1-3 mute cycles.
@@ -150,6 +156,34 @@ func runC19(t testing.TB, c C19Case) (key, what string, classes []string) {
 			}
 			classes = append(classes, "status-while-muted")
 		}
+		if cy.DenseFlood > 0 {
+			floodDone := make(chan error, 1)
+			go func() {
+				chunk := []byte(strings.Repeat("<dense-muted-flood>", 20) + "\r\n")
+				for i := 0; i < cy.DenseFlood; i++ {
+					if err := io.Send(chunk); err != nil {
+						floodDone <- err
+						return
+					}
+				}
+				floodDone <- nil
+			}()
+			for i := 0; i < cy.DenseStatus; i++ {
+				if err := status(); err != nil {
+					return "HARNESS", "status trigger: " + err.Error(), classes
+				}
+				time.Sleep(5 * time.Millisecond)
+			}
+			if err := <-floodDone; err != nil {
+				return "HARNESS", "flood: " + err.Error(), classes
+			}
+			// one more tracked marker so that the end of the flood is known
+			if err := marker("muted"); err != nil {
+				return "HARNESS", err.Error(), classes
+			}
+			lastPlain = time.Now()
+			classes = append(classes, "status-during-dense-muted-flood")
+		}
 		var lateStatus time.Time
 		for _, ms := range cy.StatusLateMS {
 			time.Sleep(time.Until(lastPlain.Add(time.Duration(ms) * time.Millisecond)))
@@ -243,6 +277,9 @@ func runC19(t testing.TB, c C19Case) (key, what string, classes []string) {
 	}
 	// shown markers keep their order
 	out := Clean(p.Raw())
+	if strings.Contains(out, "<dense-muted-flood>") {
+		return "muted-output-shown", "part of the dense flood sent while muted appears on the terminal", classes
+	}
 	last := -1
 	for _, s := range log {
 		if s.kind == "shown" {
@@ -280,6 +317,9 @@ func genC19() *rapid.Generator[C19Case] {
 			}
 			if rapid.IntRange(0, 2).Draw(t, "second") == 0 {
 				cy.SecondCtrl = rapid.SampledFrom([]int{300, 1200, 1300}).Draw(t, "secondms")
+			} else if rapid.IntRange(0, 2).Draw(t, "dense") == 0 {
+				cy.DenseFlood = rapid.SampledFrom([]int{200, 1000, 3000}).Draw(t, "denseflood")
+				cy.DenseStatus = rapid.IntRange(2, 8).Draw(t, "densestatus")
 			} else if rapid.IntRange(0, 1).Draw(t, "latestatus") == 0 {
 				cy.StatusLateMS = rapid.SampledFrom([][]int{{1200}, {1000, 1700}, {600, 1200, 1800}, {1500}}).Draw(t, "latems")
 			}
